@@ -512,3 +512,28 @@ Lemma w_rich_nonvacuous :
   wf_field w_rich /\ f_unit w_rich <> Some none_marker /\ f_ck w_rich = KInt /\
   f_subk w_rich = [KInt; KFloat] /\ f_dk w_rich = DComplex.
 Proof. split; [apply w_rich_wf|]. split; [discriminate|]. repeat split. Qed.
+
+(* the file determines the state: two well-formed fields that produce the same file agree on
+   everything [canon] keeps, i.e. on everything the property lists *)
+Lemma encode_injective {V} (conv : V -> V) (f1 f2 : fstate V) :
+  wf_field f1 -> wf_field f2 -> f_unit f1 <> Some none_marker -> f_unit f2 <> Some none_marker ->
+  encode f1 = encode f2 -> canon conv f1 = canon conv f2.
+Proof.
+  intros W1 W2 U1 U2 E.
+  pose proof (roundtrip conv f1 W1 U1) as R1. pose proof (roundtrip conv f2 W2 U2) as R2.
+  rewrite E in R1. congruence.
+Qed.
+
+(* files of another type / another layout version are refused *)
+Lemma decode_refuses_type {V} (conv : V -> V) (h : h5new V) :
+  h_type h <> file_type -> decode conv (NewFile h) = Err ValueE.
+Proof.
+  intro H. unfold decode, decode_new. apply String.eqb_neq in H. rewrite H. reflexivity.
+Qed.
+
+Lemma decode_refuses_version {V} (conv : V -> V) (h : h5new V) :
+  h_type h = file_type -> h_version h <> file_version -> decode conv (NewFile h) = Err RuntimeE.
+Proof.
+  intros T H. unfold decode, decode_new. rewrite T, String.eqb_refl.
+  apply String.eqb_neq in H. rewrite H. reflexivity.
+Qed.
